@@ -45,6 +45,7 @@ type Explorer struct {
 	PrunedExecs int
 	Horizons    int
 	Leaks       int
+	Flaky       int
 	Quiet       int
 	Outcomes    map[string]int
 	Viols       map[string]*FoundViolation // by prop+sig
@@ -122,26 +123,29 @@ func (e *Explorer) handleViolations(x *Exec) {
 			fv.Count++
 			continue
 		}
-		// believe it only if it reproduces
-		ok := true
-		for i := 0; i < 3; i++ {
-			y := runExec(e.t, e.scn, x.Choices, nil, false)
-			e.Replays++
-			found := false
-			for _, v2 := range y.Viol {
-				if v2.Prop == v.Prop && v2.Sig == v.Sig {
-					found = true
-				}
-			}
-			// an execution that ended on a state seen before is a prefix of its replay
-			if !found || y.LogH != x.LogH && !x.Pruned {
-				ok = false
-				var sigs []string
-				for _, v2 := range y.Viol {
-					sigs = append(sigs, v2.Prop+"|"+v2.Sig)
-				}
-				e.ToolErrs = append(e.ToolErrs, fmt.Sprintf("violation %s did not reproduce on replay (logH %x vs %x, found=%t, replay had %v, steps %d vs %d, outcome %q vs %q, detail %s) choices=%s", k, x.LogH, y.LogH, found, sigs, x.Steps, y.Steps, x.Outcome, y.Outcome, v.Detail, rle(x.Choices)))
-				break
+		if targetProp != "" && v.Prop != targetProp {
+			// another property's monitor fired in this scenario: listed in the
+			// evidence, not decided here, hence not worth three replays
+			e.Viols[k] = &FoundViolation{Prop: v.Prop, Sig: v.Sig, Detail: v.Detail, Scenario: e.scn.Name, Choices: trimChoices(x.Choices), Count: 1}
+			continue
+		}
+		// believe it only if it reproduces: three replays with the same log
+		// and the same violation. A first round that disagrees gets one more
+		// round before it counts as a tool error (a worker starved by a busy
+		// machine has once produced a stray divergence; two in a row have not
+		// been seen), and is counted in the result.
+		ok := false
+		var firstErr string
+		for round := 0; round < 2 && !ok; round++ {
+			ok = true
+			errsBefore := len(e.ToolErrs)
+			e.verifyReplays(x, v, k, &ok)
+			if !ok && round == 0 {
+				firstErr = e.ToolErrs[len(e.ToolErrs)-1]
+				e.ToolErrs = e.ToolErrs[:errsBefore]
+				e.Flaky++
+			} else if !ok {
+				e.ToolErrs = append(e.ToolErrs, "earlier round: "+firstErr)
 			}
 		}
 		if !ok {
@@ -154,6 +158,29 @@ func (e *Explorer) handleViolations(x *Exec) {
 		}
 		e.Viols[k] = &FoundViolation{Prop: v.Prop, Sig: v.Sig, Detail: v.Detail, Scenario: e.scn.Name,
 			Choices: trimChoices(x.Choices), Labels: compactLabels(x), Cost: cost.String(), Trace: tr.Trace, Count: 1}
+	}
+}
+
+func (e *Explorer) verifyReplays(x *Exec, v Violation, k string, ok *bool) {
+	for i := 0; i < 3; i++ {
+		y := runExec(e.t, e.scn, x.Choices, nil, false)
+		e.Replays++
+		found := false
+		for _, v2 := range y.Viol {
+			if v2.Prop == v.Prop && v2.Sig == v.Sig {
+				found = true
+			}
+		}
+		// an execution that ended on a state seen before is a prefix of its replay
+		if !found || y.LogH != x.LogH && !x.Pruned {
+			*ok = false
+			var sigs []string
+			for _, v2 := range y.Viol {
+				sigs = append(sigs, v2.Prop+"|"+v2.Sig)
+			}
+			e.ToolErrs = append(e.ToolErrs, fmt.Sprintf("violation %s did not reproduce on replay (logH %x vs %x, found=%t, replay had %v, steps %d vs %d, outcome %q vs %q, detail %s) choices=%s", k, x.LogH, y.LogH, found, sigs, x.Steps, y.Steps, x.Outcome, y.Outcome, v.Detail, rle(x.Choices)))
+			return
+		}
 	}
 }
 
@@ -275,7 +302,8 @@ type WorkerResult struct {
 	States       int               `json:"states"`
 	Pruned       int               `json:"pruned"`
 	Horizons     int               `json:"horizons"`
-	Leaks        int               `json:"leaks,omitempty"` // executions that left blocked goroutines behind
+	Leaks        int               `json:"leaks,omitempty"`               // executions that left blocked goroutines behind
+	Flaky        int               `json:"flaky_verifications,omitempty"` // verification rounds that disagreed and were repeated
 	Goroutines   int               `json:"goroutines,omitempty"`
 	HeapMiB      int               `json:"heap_mib,omitempty"`
 	Outcomes     map[string]int    `json:"outcomes"`
@@ -317,6 +345,7 @@ func exploreScenario(t *testing.T, scn *Scenario, bound Cost, shard, nshards int
 		res.Pruned += e.PrunedExecs
 		res.Horizons += e.Horizons
 		res.Leaks += e.Leaks
+		res.Flaky += e.Flaky
 		res.Replays += e.Replays
 		res.ToolErrs = append(res.ToolErrs, e.ToolErrs...)
 		res.ExecsByLevel = append(res.ExecsByLevel, e.Execs)
